@@ -12,7 +12,8 @@ import traceback
 from typing import Any
 
 from amaranth import Cat
-from transactron.testing import SimpleTestCircuit, PysimSimulator
+from transactron.lib import AdapterTrans
+from transactron.testing import SimpleTestCircuit, PysimSimulator, TestbenchIO
 from transactron.testing.functions import data_const_to_dict
 from transactron.utils.dependencies import DependencyContext, DependencyManager
 
@@ -41,10 +42,31 @@ def todict(c):
         return c
 
 
+class RivalCircuit(SimpleTestCircuit):
+    """SimpleTestCircuit with a SECOND caller transaction (rival) for chosen provided methods: an exclusive method serves one caller per cycle."""
+
+    def __init__(self, dut, rival_ports):
+        super().__init__(dut)
+        self._rival_ports = list(rival_ports)
+        self._rivals: dict[str, TestbenchIO] = {}
+
+    def elaborate(self, platform):
+        m = super().elaborate(platform)
+        for k, p in enumerate(self._rival_ports):
+            io = resolve_port(self, p)
+            if not isinstance(io.adapter, AdapterTrans):
+                continue  # a method the component requires (mock), not one it provides
+            tb = TestbenchIO(AdapterTrans.create(io.adapter.iface))
+            m.submodules[f"rival{k}"] = tb
+            self._rivals[p] = tb
+        return m
+
+
 class Model:
     """Reference model interface (see DESIGN.md 3.3 for the conventions)."""
 
     ports: dict[str, float] = {}
+    shared_ports: tuple[str, ...] = ("peek", "clear", "order")  # documented nonexclusive methods: never given a rival caller
     conflicts = False  # ports conflict with each other: only `done => allowed` is checked
     needs_dones = False  # readiness depends on the observed same-cycle run of other ports
     check_ready = True
@@ -100,8 +122,12 @@ def resolve_port(circ, port: str):
     return io[int(idx)] if idx else io
 
 
-def run_history(rec: Rec, make, rnd: random.Random, cycles: int, case: dict, klass: str = "", drain: int = 0, prop_tag: str = "", san_rec: Rec | None = None):
-    """Run one history. `make(rnd)` returns (dut, model). Returns number of monitored cycles."""
+def run_history(rec: Rec, make, rnd: random.Random, cycles: int, case: dict, klass: str = "", drain: int = 0, prop_tag: str = "", san_rec: Rec | None = None,
+                rivals: bool = False):
+    """Run one history. `make(rnd)` returns (dut, model). Returns number of monitored cycles.
+
+    rivals=True: every provided exclusive method gets a second caller transaction; per cycle a port is requested by its main caller, its rival or both
+    (with the same arguments) - an exclusive method must serve exactly one of them."""
     dm = DependencyManager()
     log: collections.deque = collections.deque(maxlen=12)
     state = {"cycles": 0, "stop": False}
@@ -113,7 +139,10 @@ def run_history(rec: Rec, make, rnd: random.Random, cycles: int, case: dict, kla
     with DependencyContext(dm):
         try:
             dut, model = make(rnd)
-            circ = SimpleTestCircuit(dut)
+            if rivals:
+                circ = RivalCircuit(dut, [p for p in model.ports if p.partition("#")[0] not in model.shared_ports])
+            else:
+                circ = SimpleTestCircuit(dut)
             sim = PysimSimulator(circ, max_cycles=cycles + drain + 20)
         except Exception:
             rec.check("constructs", False, klass=klass, case=case, detail=traceback.format_exc()[-1500:])
@@ -130,7 +159,13 @@ def run_history(rec: Rec, make, rnd: random.Random, cycles: int, case: dict, kla
             for p, io in ios.items():
                 sigs += [io.adapter.done, io.adapter.data_out, rdy[p]]
             extra = model.extra_signals(dut)
-            trig = ctx.tick().sample(*sigs, *extra)
+            riv = dict(circ._rivals) if rivals else {}
+            rsigs = []
+            for p, tb in riv.items():
+                rsigs += [tb.adapter.done, tb.adapter.data_out]
+            if rivals:
+                rec.count("histories_with_rival_callers")
+            trig = ctx.tick().sample(*sigs, *extra, *rsigs)
             choices = [0.1, 0.5, 0.9, 1.0]
             probs = {p: rnd.choice(choices) * w for p, w in model.ports.items()}
             epoch_end = rnd.randint(20, 120)
@@ -154,11 +189,37 @@ def run_history(rec: Rec, make, rnd: random.Random, cycles: int, case: dict, kla
                         en[p] = False
                         a = {}
                     args[p] = a
-                    ctx.set(io.adapter.en, en[p])
+                    who = "main"
+                    if p in riv and en[p]:
+                        x = rnd.random()
+                        who = "both" if x < 0.45 else "rival" if x < 0.6 else "main"
+                        if who == "both":
+                            rec.count("cycles_with_two_callers_requesting_one_method")
+                    ctx.set(io.adapter.en, en[p] and who != "rival")
                     if a:
                         ctx.set(io.adapter.data_in, a)
+                    if p in riv:
+                        ctx.set(riv[p].adapter.en, en[p] and who != "main")
+                        if a:
+                            ctx.set(riv[p].adapter.data_in, a)
                 _, _, *vals = await trig
                 n = len(ios)
+                if riv:
+                    # fold the rival's execution into the port: the model sees one port, whichever caller was served
+                    vals = list(vals)
+                    base_r = len(vals) - len(rsigs)
+                    for j, p in enumerate(riv):
+                        k = list(ios).index(p)
+                        dmain, drival = bool(vals[3 * k]), bool(vals[base_r + 2 * j])
+                        if not rec.check("exclusive_method_serves_at_most_one_caller_per_cycle", not (dmain and drival), klass=klass, case=case,
+                                         detail={"port": p, "main_done": dmain, "rival_done": drival, "args": args[p], "last_cycles": list(log)}):
+                            state["stop"] = True
+                        if drival and not dmain:
+                            vals[3 * k], vals[3 * k + 1] = 1, vals[base_r + 2 * j + 1]
+                            rec.count("calls_served_to_the_rival_caller")
+                    vals = vals[:base_r]
+                    if state["stop"]:
+                        return
                 dones = {p for k, p in enumerate(ios) if vals[3 * k]}
                 model.d = dones
                 calls: dict[str, tuple[Any, Any]] = {}
@@ -184,14 +245,14 @@ def run_history(rec: Rec, make, rnd: random.Random, cycles: int, case: dict, kla
                                 state["stop"] = True
                                 continue
                         if not model.conflicts:
-                            rivals = [q for g in groups if base in g for q in ios if q != p and q.partition("#")[0] in g and en[q] and allowed[q]]
+                            contenders = [q for g in groups if base in g for q in ios if q != p and q.partition("#")[0] in g and en[q] and allowed[q]]
                             exp_done = en[p] and allowed[p]
-                            if rivals:
+                            if contenders:
                                 # conflicting ports: at least one of the enabled and allowed rivals (or this port) executes
                                 if exp_done:
-                                    anyrun = done or any(q in dones for q in rivals)
+                                    anyrun = done or any(q in dones for q in contenders)
                                     if not rec.check("conflict_group_progress", anyrun, klass=klass, case=case,
-                                                     detail={"port": p, "rivals": rivals, "last_cycles": list(log)}):
+                                                     detail={"port": p, "rivals": contenders, "last_cycles": list(log)}):
                                         state["stop"] = True
                             elif not rec.check("enabled_and_allowed_iff_done", done == exp_done, klass=klass, case=case,
                                                detail={"port": p, "done": done, "expected": exp_done, "args": args[p], "last_cycles": list(log)}):
